@@ -304,8 +304,20 @@ def r3_r4(run: Run, src, cg):
             if st.kind in ('obj-attr', 'mutating-call', 'subscript') and st.base and st.base[:1].isupper():
                 r = src.resolve_class(st.base, f.module, f)
                 is_global = r is not None
-            if st.kind == 'mutating-call' and st.base == 'cls':
+            if st.kind in ('mutating-call', 'subscript') and st.base == 'cls':
                 is_global = True
+            if st.kind in ('mutating-call', 'subscript') and st.base == 'self' and st.attr and f.cls is not None:
+                # a container bound at class level and changed in place through an instance is one container for the whole process
+                # (unless every instance gets its own in a method of the class)
+                held = [c for c in src.mro(f.cls) if hasattr(c, 'attrs') and st.attr in c.attrs and
+                        (isinstance(c.attrs[st.attr], (ast.Dict, ast.List, ast.Set, ast.ListComp, ast.DictComp, ast.SetComp)) or
+                         (isinstance(c.attrs[st.attr], ast.Call) and ast.unparse(c.attrs[st.attr].func).split('.')[-1] in
+                          ('dict', 'list', 'set', 'defaultdict', 'OrderedDict', 'deque', 'Counter')))]
+                own = any(isinstance(t_, ast.Attribute) and isinstance(t_.value, ast.Name) and t_.value.id == 'self' and t_.attr == st.attr and
+                          isinstance(t_.ctx, ast.Store)
+                          for c in src.mro(f.cls) if hasattr(c, 'methods') for m_ in c.methods.values() for t_ in ast.walk(m_.node))
+                if held and not own:
+                    is_global = True
             if not is_global:
                 continue
             attr = st.attr or st.target
@@ -326,6 +338,9 @@ def r3_r4(run: Run, src, cg):
             def taint_of(e, depth=0):
                 out = set()
                 for x in ast.walk(e):
+                    if isinstance(x, ast.Attribute) and isinstance(x.value, ast.Name) and x.value.id == 'self' and 'self' in f.params and \
+                            not any(hasattr(c, 'attrs') and x.attr in c.attrs for c in (src.mro(f.cls) if f.cls is not None else [])):
+                        out.add(f'self.{x.attr}')              # the state of one instance: an input like any argument
                     if isinstance(x, ast.Name):
                         if x.id in params:
                             out.add(x.id)
